@@ -170,8 +170,12 @@ class Built:
                 # handler, say): nothing to record
                 return inner(*a, **kw)
             ent = {'node': owner, 'self': a[0] if a else None, 'fn': _cp_dispatch, 'before': list(vp),
-                   'after': None, 'ret': None, 'raised': None, 'hkw': None}
+                   'after': None, 'ret': None, 'raised': None, 'hkw': None, 'params': []}
             log.append(ent)
+            try:
+                p0 = dict(cp().serving.request.params)
+            except Exception:
+                p0 = None
             try:
                 r = inner(*a, **kw)
             except BaseException as e:
@@ -180,6 +184,13 @@ class Built:
                 raise
             ent['after'] = list(vp)
             ent['ret'] = r
+            if p0 is not None:
+                try:
+                    # what the call put into request.params (update order)
+                    ent['params'] = [(k, v) for k, v in cp().serving.request.params.items()
+                                     if k not in p0 or p0[k] != v]
+                except Exception:
+                    ent['params'] = None
             return r
         _cp_dispatch._inner = inner
         return _cp_dispatch
@@ -322,11 +333,12 @@ class View:
     """Breadth-first serialisation of everything reachable from the root through the names in
     `alphabet` within `maxdepth` getattr steps."""
 
-    def __init__(self, built, alphabet, maxdepth, dispatch_name='_cp_dispatch'):
+    def __init__(self, built, alphabet, maxdepth, dispatch_name='_cp_dispatch', extra_roots=()):
         self.built = built
         self.alphabet = list(dict.fromkeys(alphabet))
         self.maxdepth = maxdepth
         self.dispatch_name = dispatch_name
+        self.extra_roots = list(extra_roots)    # objects to serialise although no attribute path may lead to them
         self.ids = {}
         self.objs = []
         self.depth = []
@@ -370,6 +382,9 @@ class View:
         import collections
         self.queue = collections.deque()
         self.visit(self.built.root, 0)
+        for o in self.extra_roots:
+            if o is not None:
+                self.visit(o, 1)
         # attributes of the None object (getattr(None, name, None) is what the walk does after a miss)
         for name in self.alphabet:
             v = getattr(None, name, None)
@@ -450,10 +465,13 @@ class View:
     def enc_attrs(self, attrs):
         return ','.join('%s=%d' % (enc_text(n), i) for n, i in attrs) or '-'
 
-    def fields(self):
-        """(root, noneattrs, nodes) fields of a driver line."""
+    def fields(self, nodisp=False):
+        """(root, noneattrs, nodes) fields of a driver line (`nodisp`: without the dispatcher descriptors, for
+        the table form of the model)."""
         out = []
         for nd in self.nodes:
+            if nodisp:
+                nd = dict(nd, disp='-')
             flags = ('t' if nd['truthy'] else '') + ('c' if nd['callable'] else '') + ('e' if nd['exposed'] else '')
             conf = nd['conf']
             try:
